@@ -11,8 +11,9 @@ import (
 
 func init() {
 	register(&Check{
-		ID:    "C15",
-		Level: "exploration",
+		ID:        "C15",
+		DeepQuick: true,
+		Level:     "exploration",
 		Rule: "(a) every wholly known, unmarked, capsule-free value of the bounded universe (all kinds, nulls at any depth, empty collections, the full number alphabet except infinities, normalising strings) x every type constraint obtained from its type by replacing any antichain of sub-types by the dynamic placeholder: Marshal / Unmarshal round trip, JSON validity, plain-decoding mirror; " +
 			"(b) every document of a JSON grammar (scalars in several spellings, arrays and objects of <=2 members, depth<=2 (thorough 3), duplicate and normalising keys): ImpliedType = structural type, Unmarshal with it, re-marshal equal up to key order / number spelling / NFC, SimpleJSONValue agrees; " +
 			"(c) values JSON cannot represent (unknown at any depth, marked at any depth, infinities) are rejected with an error; distinct by value GoString x constraint / by document; non-trivial = every case",
